@@ -13,11 +13,19 @@ fits the `u32` the code stores it in.
                       the invariant (never indexes out of range = never panics) and does to `L`
                       what the sequence model does to its key list.
 * `step_sim` / `run_sim` : forward simulation `LruPtr.step` ↔ `LruSeq.step`, whole histories.
-* fuel: `iter_ok` (for_each_entry) and `evictLoop_ok` (evict_to_target) show that the fuel
-  `entries.length + 1` of the model's two `while` loops is never exhausted under the invariant.
+* fuel: `iterAux_seg` / `iter_sim` (for_each_entry) and `evictLoop_sim` (evict_to_target) show
+  that the fuel `entries.length + 1` of the model's two `while` loops is never exhausted under the
+  invariant; `slots_rep`: the abstraction FUNCTION (`Ptr.slots`, the `next` walk) returns `L`.
+* persistence: `rebuild_*` (the `is_active` loop of `load_from_disk`), `load_rep` (it restores the
+  invariant with the same slot list when no linked key is all-zero), `GoodFile` / `snapOf` /
+  `goodfile_decode` (what `checkpoint_to_disk` writes parses back, via the codec theorem), `Sim2`
+  (simulation relation with files), `step_sim2` / `run_sim2`: ALL operations incl. `load_from_disk`
+  and `run_cycle`, for 9-byte keys other than the all-zero key.
+* `viewOf_rep` / `fileView_checkpoint`: what an independent reader of the checkpoint file finds.
 -/
 import Cascette.Model.LruPtr
 import Cascette.Proofs.Lru
+import Cascette.Proofs.LruPtr
 namespace Cascette.Proofs.LruRefine
 open Cascette Cascette.Model.LruPtr
 open Cascette.Model.LruSeq (Seq)
@@ -511,6 +519,10 @@ structure RepF (s : Ptr) (L F : List Nat) : Prop where
   km : ∀ k i, kmGet s.keyMap k = some i ↔ i ∈ L ∧ keyAt s.entries i = k
   /-- unused slots hold `LruFileEntry::empty()` -/
   freeEmpty : ∀ i ∈ F, s.entries[i]? = some Entry.empty
+  /-- the header keeps a version `deserialize` accepts -/
+  ver : s.header.version ≤ 1
+  /-- no code path sets a flag -/
+  flags0 : ∀ (i : Nat) (e : Entry), s.entries[i]? = some e → e.flags = 0
 
 abbrev Rep (s : Ptr) (L : List Nat) : Prop := RepF s L s.freeList
 
@@ -555,6 +567,26 @@ end RepF
 
 theorem keyAt_of {es : List Entry} {i : Nat} {x : Entry} (h : es[i]? = some x) : keyAt es i = x.ekey := by
   simp only [keyAt, h]
+
+theorem flags_transfer {es es' : List Entry} (hl : es'.length = es.length)
+    (hpt : ∀ (i : Nat) (x : Entry), es[i]? = some x → ∃ x' : Entry, es'[i]? = some x' ∧ x'.flags = x.flags)
+    (h0 : ∀ (i : Nat) (e : Entry), es[i]? = some e → e.flags = 0) : ∀ (i : Nat) (e : Entry), es'[i]? = some e → e.flags = 0 := by
+  intro i e hie
+  have hlt : i < es.length := hl ▸ getElem?_lt hie
+  obtain ⟨x', hx', hf⟩ := hpt i _ (List.getElem?_eq_getElem hlt)
+  rw [hie] at hx'
+  rw [Option.some.inj hx', hf]
+  exact h0 i _ (List.getElem?_eq_getElem hlt)
+
+theorem flags_set {es : List Entry} (h0 : ∀ (i : Nat) (e : Entry), es[i]? = some e → e.flags = 0) (a : Entry) (ha : a.flags = 0)
+    (j : Nat) : ∀ (i : Nat) (e : Entry), (es.set j a)[i]? = some e → e.flags = 0 := by
+  intro i e hie
+  rw [List.getElem?_set] at hie
+  split at hie
+  · split at hie
+    · cases hie; exact ha
+    · cases hie
+  · exact h0 i e hie
 
 /-- the common part of `detach_tail` and `remove`: drop the slot's key from the key map, unlink
 the slot, overwrite it with `LruFileEntry::empty()`.  The slot ends up owned by the caller
@@ -642,6 +674,9 @@ theorem detach_ok (s : Ptr) (A B F : List Nat) (idx : Nat) (e : Entry)
         have hnL : i ∉ A ++ idx :: B := fun hm => h.disj hm hi
         obtain ⟨x', hx', _, _, hsame⟩ := hpt i _ (h.freeEmpty i hi)
         rw [List.getElem?_set_ne (Ne.symm hii), hx', hsame hnL]
+    · exact h.ver
+    · exact flags_set (flags_transfer hl' (fun i x hx => by
+        obtain ⟨x', h1, _, h3, _⟩ := hpt i x hx; exact ⟨x', h1, h3⟩) h.flags0) Entry.empty rfl idx
   · intro i hi
     have hlt := h.ltL (hsub i hi)
     obtain ⟨x', hx', hk, _, _⟩ := hpt i _ (List.getElem?_eq_getElem hlt)
@@ -727,6 +762,9 @@ theorem install_ok (s : Ptr) (L F : List Nat) (f : Nat) (k : Key)
       show (es.set f new)[i]? = some Entry.empty
       rw [List.getElem?_set_ne (Ne.symm hif)]; exact h.freeEmpty i (List.mem_cons_of_mem _ hi))
     rw [hx', hsame hiL]
+  · exact h.ver
+  · exact flags_transfer (es := es.set f new) (by simpa using hl') (fun i x hx => by
+      obtain ⟨x', h1, _, h3, _⟩ := hpt i x hx; exact ⟨x', h1, h3⟩) (flags_set h.flags0 new rfl f)
 
 
 theorem detachTail_nil (s : Ptr) (F : List Nat) (h : RepF s [] F) : detachTail s = some (s, none) := by
@@ -837,6 +875,11 @@ theorem touch_hit_sim (s : Ptr) (k : Key) (A B : List Nat) (idx : Nat)
         · exact hnL (hsub i hm)
       obtain ⟨x'', hx'', _, _, hsame'⟩ := hpt' i _ hx'
       rw [hx'', hsame' hnL']
+    · exact hr.ver
+    · exact flags_transfer hl'' (fun i x hx => by
+        obtain ⟨x', h1, _, h3, _⟩ := hpt' i x hx; exact ⟨x', h1, h3⟩)
+        (flags_transfer hl' (fun i x hx => by
+          obtain ⟨x', h1, _, h3, _⟩ := hpt i x hx; exact ⟨x', h1, h3⟩) hr.flags0)
 
 
 theorem not_mem_order_of_none {s : Ptr} {L F : List Nat} (h : RepF s L F) {k : Key}
@@ -879,14 +922,14 @@ end seqfacts
 /-- `touch` (pointer level) simulates `touch` (sequence level): never panics, same result, and the
 resulting states correspond. -/
 theorem touch_sim (s : Ptr) (q : Seq Key) (k : Key) (h : Sim s q) :
-    ∃ s', touch s k = some (s', (LruSeq.touch q k).2) ∧ Sim s' (LruSeq.touch q k).1 := by
+    ∃ s', touch s k = some (s', (LruSeq.touch q k).2) ∧ s'.files = s.files ∧ Sim s' (LruSeq.touch q k).1 := by
   obtain ⟨L, hr, ho, hf, hc, hg, hp⟩ := h
   cases hkm : kmGet s.keyMap k with
   | some idx =>
     obtain ⟨hiL, hik⟩ := (hr.km k idx).mp hkm
     obtain ⟨A, B, hAB⟩ := List.append_of_mem hiL
     subst hAB
-    obtain ⟨s', ht, hr', hkey, h1, h2, h3, h4, _⟩ := touch_hit_sim s k A B idx hr hkm
+    obtain ⟨s', ht, hr', hkey, h1, h2, h3, h4, h5⟩ := touch_hit_sim s k A B idx hr hkm
     have hmem : k ∈ q.order := by rw [ho, ← hik]; exact List.mem_map_of_mem hiL
     have hnA : k ∉ A.map (keyAt s.entries) := by
       intro hm
@@ -899,7 +942,7 @@ theorem touch_sim (s : Ptr) (q : Seq Key) (k : Key) (h : Sim s q) :
     have ho' : q.order = A.map (keyAt s.entries) ++ k :: B.map (keyAt s.entries) := by
       rw [ho, List.map_append, List.map_cons, hik]
     rw [seq_touch_hit q k _ _ ho' hnA]
-    refine ⟨s', ht, A ++ B ++ [idx], hr', ?_, by rw [h1]; exact hf, by rw [h4]; exact hc,
+    refine ⟨s', ht, h5, A ++ B ++ [idx], hr', ?_, by rw [h1]; exact hf, by rw [h4]; exact hc,
       by rw [h2]; exact hg, by rw [h3]; exact hp⟩
     show A.map (keyAt s.entries) ++ B.map (keyAt s.entries) ++ [k] = (A ++ B ++ [idx]).map (keyAt s'.entries)
     rw [List.map_congr_left (fun i _ => hkey i)]
@@ -910,11 +953,11 @@ theorem touch_sim (s : Ptr) (q : Seq Key) (k : Key) (h : Sim s q) :
     | cons f rest =>
       have hr0 : RepF { s with freeList := rest } L (f :: rest) := by
         have := hr; unfold Rep at this; rw [hfl] at this
-        exact ⟨this.len, this.u32, this.slots, this.list, this.kmNodup, this.km, this.freeEmpty⟩
-      obtain ⟨s2, s3, hmod, hlk, hr3, h1, h2, h3, h4, _, hkf, hkL⟩ := install_ok _ L rest f k hr0 hkm
+        exact ⟨this.len, this.u32, this.slots, this.list, this.kmNodup, this.km, this.freeEmpty, this.ver, this.flags0⟩
+      obtain ⟨s2, s3, hmod, hlk, hr3, h1, h2, h3, h4, h5, hkf, hkL⟩ := install_ok _ L rest f k hr0 hkm
       have hfree : 0 < q.free := by rw [hf, hfl]; simp
       rw [seq_touch_free q k hnm hfree]
-      refine ⟨s3, ?_, L ++ [f], ?_, ?_, ?_, by rw [h4]; exact hc, by rw [h2]; exact hg, by rw [h3]; exact hp⟩
+      refine ⟨s3, ?_, h5, L ++ [f], ?_, ?_, ?_, by rw [h4]; exact hc, by rw [h2]; exact hg, by rw [h3]; exact hp⟩
       · unfold touch
         simp only [hkm, hfl, hmod, hlk, Option.map]
       · unfold Rep; rw [h1]; exact hr3
@@ -929,11 +972,11 @@ theorem touch_sim (s : Ptr) (q : Seq Key) (k : Key) (h : Sim s q) :
       cases L with
       | nil =>
         rw [seq_touch_full_nil q k ho hfree]
-        refine ⟨s, ?_, [], hr, ho, hf, hc, hg, hp⟩
+        refine ⟨s, ?_, rfl, [], hr, ho, hf, hc, hg, hp⟩
         unfold touch
         simp only [hkm, hfl, detachTail_nil s [] hrN]
       | cons t rest =>
-        obtain ⟨s2, hdt, hr2, g1, g2, g3, g4, _, hk2⟩ := detachTail_cons s t rest [] hrN
+        obtain ⟨s2, hdt, hr2, g1, g2, g3, g4, g5, hk2⟩ := detachTail_cons s t rest [] hrN
         have hkm2 : kmGet s2.keyMap k = none := by
           cases hx : kmGet s2.keyMap k with
           | none => rfl
@@ -942,9 +985,9 @@ theorem touch_sim (s : Ptr) (q : Seq Key) (k : Key) (h : Sim s q) :
             rw [hk2 i hi] at hik
             have := (hr.km k i).mpr ⟨List.mem_cons_of_mem _ hi, hik⟩
             rw [hkm] at this; cases this
-        obtain ⟨s3, s4, hmod, hlk, hr4, h1, h2, h3, h4, _, hkf, hkL⟩ := install_ok s2 rest [] t k hr2 hkm2
+        obtain ⟨s3, s4, hmod, hlk, hr4, h1, h2, h3, h4, h5, hkf, hkL⟩ := install_ok s2 rest [] t k hr2 hkm2
         rw [seq_touch_full_cons q k _ _ ho hnm hfree]
-        refine ⟨s4, ?_, rest ++ [t], ?_, ?_, ?_, by rw [h4, g4]; exact hc, by rw [h2, g2]; exact hg,
+        refine ⟨s4, ?_, h5.trans g5, rest ++ [t], ?_, ?_, ?_, by rw [h4, g4]; exact hc, by rw [h2, g2]; exact hg,
           by rw [h3, g3]; exact hp⟩
         · unfold touch
           simp only [hkm, hfl, hdt, hmod, hlk, Option.map]
@@ -958,13 +1001,13 @@ theorem touch_sim (s : Ptr) (q : Seq Key) (k : Key) (h : Sim s q) :
 
 /-- `remove` simulates `remove`. -/
 theorem remove_sim (s : Ptr) (q : Seq Key) (k : Key) (h : Sim s q) :
-    ∃ s', remove s k = some (s', (LruSeq.remove q k).2) ∧ Sim s' (LruSeq.remove q k).1 := by
+    ∃ s', remove s k = some (s', (LruSeq.remove q k).2) ∧ s'.files = s.files ∧ Sim s' (LruSeq.remove q k).1 := by
   obtain ⟨L, hr, ho, hf, hc, hg, hp⟩ := h
   cases hkm : kmGet s.keyMap k with
   | none =>
     have hnm : k ∉ q.order := by rw [ho]; exact not_mem_order_of_none hr hkm
     rw [seq_remove_miss q k hnm]
-    refine ⟨s, ?_, L, hr, ho, hf, hc, hg, hp⟩
+    refine ⟨s, ?_, rfl, L, hr, ho, hf, hc, hg, hp⟩
     unfold remove; simp only [hkm]
   | some idx =>
     obtain ⟨hiL, hik⟩ := (hr.km k idx).mp hkm
@@ -973,7 +1016,7 @@ theorem remove_sim (s : Ptr) (q : Seq Key) (k : Key) (h : Sim s q) :
     have hlt := hr.ltL hiL
     have he : s.entries[idx]? = some s.entries[idx] := List.getElem?_eq_getElem hlt
     have hek : s.entries[idx].ekey = k := by rw [← keyAt_of he]; exact hik
-    obtain ⟨s1, s2, hun, hmod, hr2, g1, g2, g3, g4, _, hk2⟩ := detach_ok s A B s.freeList idx _ hr he
+    obtain ⟨s1, s2, hun, hmod, hr2, g1, g2, g3, g4, g5, hk2⟩ := detach_ok s A B s.freeList idx _ hr he
     rw [hek] at hun
     have hnA : k ∉ A.map (keyAt s.entries) := by
       intro hm
@@ -986,13 +1029,13 @@ theorem remove_sim (s : Ptr) (q : Seq Key) (k : Key) (h : Sim s q) :
     have ho' : q.order = A.map (keyAt s.entries) ++ k :: B.map (keyAt s.entries) := by
       rw [ho, List.map_append, List.map_cons, hik]
     rw [seq_remove_hit q k _ _ ho' hnA]
-    refine ⟨{ s2 with freeList := idx :: s2.freeList }, ?_, A ++ B, ?_, ?_, ?_, by show q.cap = s2.cap; rw [g4]; exact hc,
+    refine ⟨{ s2 with freeList := idx :: s2.freeList }, ?_, g5, A ++ B, ?_, ?_, ?_, by show q.cap = s2.cap; rw [g4]; exact hc,
       by show q.gen = s2.gen; rw [g2]; exact hg, by show q.prev = s2.prev; rw [g3]; exact hp⟩
     · unfold remove; simp only [hkm, hun, hmod]
     · unfold Rep
       show RepF { s2 with freeList := idx :: s2.freeList } (A ++ B) (idx :: s2.freeList)
       rw [g1]
-      exact ⟨hr2.len, hr2.u32, hr2.slots, hr2.list, hr2.kmNodup, hr2.km, hr2.freeEmpty⟩
+      exact ⟨hr2.len, hr2.u32, hr2.slots, hr2.list, hr2.kmNodup, hr2.km, hr2.freeEmpty, hr2.ver, hr2.flags0⟩
     · show A.map (keyAt s.entries) ++ B.map (keyAt s.entries) = (A ++ B).map (keyAt s2.entries)
       rw [List.map_congr_left hk2, List.map_append]
     · show q.free + 1 = (idx :: s2.freeList).length
@@ -1007,24 +1050,25 @@ theorem seq_evictTail_cons {κ : Type} (q : Seq κ) (x : κ) (t : List κ) (ho :
 
 /-- public `evict_tail` simulates `evictTail`. -/
 theorem evictTail_sim (s : Ptr) (q : Seq Key) (h : Sim s q) :
-    ∃ s' r, evictTail s = some (s', r) ∧ r.isSome = (LruSeq.evictTail q).2 ∧ Sim s' (LruSeq.evictTail q).1 := by
+    ∃ s' r, evictTail s = some (s', r) ∧ r.isSome = (LruSeq.evictTail q).2 ∧ s'.files = s.files ∧
+      Sim s' (LruSeq.evictTail q).1 := by
   obtain ⟨L, hr, ho, hf, hc, hg, hp⟩ := h
   cases L with
   | nil =>
     rw [seq_evictTail_nil q ho]
-    refine ⟨s, none, ?_, rfl, [], hr, ho, hf, hc, hg, hp⟩
+    refine ⟨s, none, ?_, rfl, rfl, [], hr, ho, hf, hc, hg, hp⟩
     unfold evictTail; simp only [detachTail_nil s _ hr]
   | cons t rest =>
-    obtain ⟨s2, hdt, hr2, g1, g2, g3, g4, _, hk2⟩ := detachTail_cons s t rest s.freeList hr
+    obtain ⟨s2, hdt, hr2, g1, g2, g3, g4, g5, hk2⟩ := detachTail_cons s t rest s.freeList hr
     rw [seq_evictTail_cons q _ _ ho]
-    refine ⟨{ s2 with freeList := t :: s2.freeList }, some t, ?_, rfl, rest, ?_, ?_, ?_,
+    refine ⟨{ s2 with freeList := t :: s2.freeList }, some t, ?_, rfl, g5, rest, ?_, ?_, ?_,
       by show q.cap = s2.cap; rw [g4]; exact hc,
       by show q.gen = s2.gen; rw [g2]; exact hg, by show q.prev = s2.prev; rw [g3]; exact hp⟩
     · unfold evictTail; simp only [hdt]
     · unfold Rep
       show RepF { s2 with freeList := t :: s2.freeList } rest (t :: s2.freeList)
       rw [g1]
-      exact ⟨hr2.len, hr2.u32, hr2.slots, hr2.list, hr2.kmNodup, hr2.km, hr2.freeEmpty⟩
+      exact ⟨hr2.len, hr2.u32, hr2.slots, hr2.list, hr2.kmNodup, hr2.km, hr2.freeEmpty, hr2.ver, hr2.flags0⟩
     · show rest.map (keyAt s.entries) = rest.map (keyAt s2.entries)
       rw [List.map_congr_left hk2]
     · show q.free + 1 = (t :: s2.freeList).length
@@ -1047,7 +1091,7 @@ theorem evictLoop_sim (target avg : Nat) (fuel : Nat) (s : Ptr) (q : Seq Key) (e
     (h : Sim s q) (hfuel : q.order.length < fuel) :
     ∃ s', evictLoop target avg fuel s evicted freed =
         some (s', evicted + (LruSeq.evictToAux target avg q.order q.free freed).2.2.1,
-              (LruSeq.evictToAux target avg q.order q.free freed).2.2.2) ∧
+              (LruSeq.evictToAux target avg q.order q.free freed).2.2.2) ∧ s'.files = s.files ∧
       Sim s' { q with order := (LruSeq.evictToAux target avg q.order q.free freed).1,
                       free := (LruSeq.evictToAux target avg q.order q.free freed).2.1 } := by
   induction fuel generalizing s q evicted freed with
@@ -1056,7 +1100,7 @@ theorem evictLoop_sim (target avg : Nat) (fuel : Nat) (s : Ptr) (q : Seq Key) (e
     unfold evictLoop
     by_cases hlt : freed < target
     · rw [if_pos hlt]
-      obtain ⟨s1, r, hev, hres, hsim⟩ := evictTail_sim s q h
+      obtain ⟨s1, r, hev, hres, hfs1, hsim⟩ := evictTail_sim s q h
       rw [hev]
       cases ho : q.order with
       | nil =>
@@ -1064,7 +1108,7 @@ theorem evictLoop_sim (target avg : Nat) (fuel : Nat) (s : Ptr) (q : Seq Key) (e
         cases r with
         | some t => cases hres
         | none =>
-          refine ⟨s1, ?_, ?_⟩
+          refine ⟨s1, ?_, hfs1, ?_⟩
           · simp only [LruSeq.evictToAux, Nat.add_zero]
           · simp only [LruSeq.evictToAux]
             exact sim_congr hsim ho.symm rfl rfl rfl rfl
@@ -1075,15 +1119,15 @@ theorem evictLoop_sim (target avg : Nat) (fuel : Nat) (s : Ptr) (q : Seq Key) (e
         | some tl =>
           have hlen : ({ q with order := t, free := q.free + 1 } : Seq Key).order.length < fuel := by
             rw [ho] at hfuel; simp only [List.length_cons] at hfuel ⊢; omega
-          obtain ⟨s', hrun, hsim'⟩ := ih s1 _ (evicted + 1) (freed + avg) hsim hlen
-          refine ⟨s', ?_, ?_⟩
+          obtain ⟨s', hrun, hfs', hsim'⟩ := ih s1 _ (evicted + 1) (freed + avg) hsim hlen
+          refine ⟨s', ?_, hfs'.trans hfs1, ?_⟩
           · simp only [LruSeq.evictToAux, if_pos hlt]
             rw [hrun]
             simp only [Nat.add_assoc, Nat.add_comm 1]
           · simp only [LruSeq.evictToAux, if_pos hlt]
             exact sim_congr hsim' rfl rfl rfl rfl rfl
     · rw [if_neg hlt]
-      refine ⟨s, ?_, ?_⟩
+      refine ⟨s, ?_, rfl, ?_⟩
       · cases ho : q.order <;> simp only [LruSeq.evictToAux, if_neg hlt, Nat.add_zero]
       · cases ho : q.order with
         | nil => simp only [LruSeq.evictToAux]; exact sim_congr h ho.symm rfl rfl rfl rfl
@@ -1091,29 +1135,34 @@ theorem evictLoop_sim (target avg : Nat) (fuel : Nat) (s : Ptr) (q : Seq Key) (e
 
 /-- `evict_to_target` simulates `evictTo`; the fuel `entries.len() + 1` suffices. -/
 theorem evictTo_sim (s : Ptr) (q : Seq Key) (target avg : Nat) (h : Sim s q) :
-    ∃ s', evictToTarget s target avg = some (s', (LruSeq.evictTo q target avg).2) ∧
+    ∃ s', evictToTarget s target avg = some (s', (LruSeq.evictTo q target avg).2) ∧ s'.files = s.files ∧
       Sim s' (LruSeq.evictTo q target avg).1 := by
   have hfuel : q.order.length < s.entries.length + 1 := by have := sim_len_le h; omega
-  obtain ⟨s', hrun, hsim⟩ := evictLoop_sim target avg _ s q 0 0 h hfuel
-  refine ⟨s', ?_, hsim⟩
+  obtain ⟨s', hrun, hfs, hsim⟩ := evictLoop_sim target avg _ s q 0 0 h hfuel
+  refine ⟨s', ?_, hfs, hsim⟩
   unfold evictToTarget
   rw [hrun]
   simp only [Nat.zero_add, LruSeq.evictTo]
 
 /-- `LruManager::new` / `reset`: the empty list, every slot free. -/
 theorem rep_fresh (hdr : Header) (cap : Nat) (hcap : cap ≤ SENT) (g p : Nat) (fs : Spec.Lru.Files Bytes)
-    (hh : hdr.head = SENT) (ht : hdr.tail = SENT) :
+    (hh : hdr.head = SENT) (ht : hdr.tail = SENT) (hv : hdr.version ≤ 1) :
     Rep ⟨hdr, List.replicate cap Entry.empty, [], (List.range cap).reverse, g, p, cap, fs⟩ [] := by
-  refine ⟨by simp, hcap, ?_, ⟨trivial, ht, hh⟩, List.nodup_nil, ?_, ?_⟩
+  refine ⟨by simp, hcap, ?_, ⟨trivial, ht, hh⟩, List.nodup_nil, ?_, ?_, hv, ?_⟩
   · simp only [List.nil_append]; exact List.reverse_perm _
   · intro k i; simp [kmGet]
   · intro i hi
     simp only [List.mem_reverse, List.mem_range] at hi
     simp [hi]
+  · intro i e hie
+    rw [List.getElem?_replicate] at hie
+    split at hie
+    · cases hie; rfl
+    · cases hie
 
 theorem sim_init (cap : Nat) (hcap : cap ≤ SENT) (fs : Spec.Lru.Files Bytes) :
     Sim (Ptr.init cap fs) (Seq.init cap) :=
-  ⟨[], rep_fresh _ cap hcap 1 0 fs rfl rfl, rfl, by simp [Seq.init, Ptr.init], rfl, rfl, rfl⟩
+  ⟨[], rep_fresh _ cap hcap 1 0 fs rfl rfl (by decide), rfl, by simp [Seq.init, Ptr.init], rfl, rfl, rfl⟩
 
 theorem sim_cap {s : Ptr} {q : Seq Key} (h : Sim s q) : s.cap ≤ SENT := by
   obtain ⟨L, hr, _⟩ := h; exact hr.u32
@@ -1122,42 +1171,43 @@ theorem sim_cap {s : Ptr} {q : Seq Key} (h : Sim s q) : s.cap ≤ SENT := by
 what the sequence level answers, and the states still correspond. -/
 theorem step_sim (md5 : Bytes → Bytes) (s : Ptr) (q : Seq Key) (op : Spec.Lru.Op Key) (h : Sim s q)
     (hop : Proofs.Lru.isReload op = false) :
-    ∃ s', step md5 s op = some (s', (LruSeq.step zeroKey q op).2) ∧ Sim s' (LruSeq.step zeroKey q op).1 := by
+    ∃ s', step md5 s op = some (s', (LruSeq.step zeroKey q op).2) ∧ Sim s' (LruSeq.step zeroKey q op).1 ∧
+      (op ≠ .checkpoint → s'.files = s.files) := by
   cases op with
   | touch k =>
-    obtain ⟨s', h1, h2⟩ := touch_sim s q k h
-    exact ⟨s', by simp only [step, h1, Option.map, LruSeq.step], h2⟩
+    obtain ⟨s', h1, hfs, h2⟩ := touch_sim s q k h
+    exact ⟨s', by simp only [step, h1, Option.map, LruSeq.step], h2, fun _ => hfs⟩
   | remove k =>
-    obtain ⟨s', h1, h2⟩ := remove_sim s q k h
-    exact ⟨s', by simp only [step, h1, Option.map, LruSeq.step], h2⟩
+    obtain ⟨s', h1, hfs, h2⟩ := remove_sim s q k h
+    exact ⟨s', by simp only [step, h1, Option.map, LruSeq.step], h2, fun _ => hfs⟩
   | evictTail =>
-    obtain ⟨s', r, h1, h2, h3⟩ := evictTail_sim s q h
-    exact ⟨s', by simp only [step, h1, Option.map, LruSeq.step, h2], h3⟩
+    obtain ⟨s', r, h1, h2, hfs, h3⟩ := evictTail_sim s q h
+    exact ⟨s', by simp only [step, h1, Option.map, LruSeq.step, h2], h3, fun _ => hfs⟩
   | evictTo t a =>
-    obtain ⟨s', h1, h2⟩ := evictTo_sim s q t a h
-    exact ⟨s', by simp only [step, h1, Option.map, LruSeq.step], h2⟩
+    obtain ⟨s', h1, hfs, h2⟩ := evictTo_sim s q t a h
+    exact ⟨s', by simp only [step, h1, Option.map, LruSeq.step], h2, fun _ => hfs⟩
   | bump =>
     obtain ⟨L, hr, ho, hf, hc, hg, hp⟩ := h
-    refine ⟨bump s, rfl, L, ?_, ho, hf, hc, ?_, hg⟩
-    · exact ⟨hr.len, hr.u32, hr.slots, hr.list, hr.kmNodup, hr.km, hr.freeEmpty⟩
+    refine ⟨bump s, rfl, ⟨L, ?_, ho, hf, hc, ?_, hg⟩, fun _ => rfl⟩
+    · exact ⟨hr.len, hr.u32, hr.slots, hr.list, hr.kmNodup, hr.km, hr.freeEmpty, hr.ver, hr.flags0⟩
     · show Spec.Lru.nextGen q.gen = Spec.Lru.nextGen s.gen
       rw [hg]
   | checkpoint =>
     obtain ⟨L, hr, ho, hf, hc, hg, hp⟩ := h
-    refine ⟨checkpoint md5 s, rfl, L, ?_, ho, hf, hc, hg, hp⟩
-    exact ⟨hr.len, hr.u32, hr.slots, hr.list, hr.kmNodup, hr.km, hr.freeEmpty⟩
+    refine ⟨checkpoint md5 s, rfl, ⟨L, ?_, ho, hf, hc, hg, hp⟩, fun hne => absurd rfl hne⟩
+    exact ⟨hr.len, hr.u32, hr.slots, hr.list, hr.kmNodup, hr.km, hr.freeEmpty, hr.ver, hr.flags0⟩
   | load g => simp [Proofs.Lru.isReload] at hop
   | runCycle l a => simp [Proofs.Lru.isReload] at hop
   | reset =>
     have hcap := sim_cap h
     obtain ⟨L, hr, ho, hf, hc, hg, hp⟩ := h
-    refine ⟨reset s, rfl, [], rep_fresh _ s.cap hcap _ _ _ rfl rfl, rfl, ?_, hc, hg, hp⟩
+    refine ⟨reset s, rfl, ⟨[], rep_fresh _ s.cap hcap _ _ _ rfl rfl (by decide), rfl, ?_, hc, hg, hp⟩, fun _ => rfl⟩
     show q.cap = ((List.range s.cap).reverse).length
     simp [hc]
   | reopen =>
     have hcap := sim_cap h
     obtain ⟨L, hr, ho, hf, hc, hg, hp⟩ := h
-    refine ⟨Ptr.init s.cap s.files, rfl, [], rep_fresh _ s.cap hcap _ _ _ rfl rfl, rfl, ?_, hc, rfl, rfl⟩
+    refine ⟨Ptr.init s.cap s.files, rfl, ⟨[], rep_fresh _ s.cap hcap _ _ _ rfl rfl (by decide), rfl, ?_, hc, rfl, rfl⟩, fun _ => rfl⟩
     show q.cap = ((List.range s.cap).reverse).length
     simp [hc]
 
@@ -1169,7 +1219,7 @@ theorem run_sim (md5 : Bytes → Bytes) (ops : List (Spec.Lru.Op Key)) (s : Ptr)
   induction ops generalizing s q with
   | nil => exact ⟨s, rfl, h⟩
   | cons op ops ih =>
-    obtain ⟨s1, h1, hs1⟩ := step_sim md5 s q op h (hops op List.mem_cons_self)
+    obtain ⟨s1, h1, hs1, _⟩ := step_sim md5 s q op h (hops op List.mem_cons_self)
     obtain ⟨s2, h2, hs2⟩ := ih s1 _ hs1 (fun o ho => hops o (List.mem_cons_of_mem _ ho))
     exact ⟨s2, by simp only [run, h1, h2, LruSeq.run], hs2⟩
 
@@ -1269,5 +1319,749 @@ theorem rep_unique {s : Ptr} {L L' F F' : List Nat} (h : RepF s L F) (h' : RepF 
   have h1 := (slots_rep h).1
   rw [(slots_rep h').1] at h1
   exact (Option.some.inj h1).symm
+
+
+/-! ### `load_from_disk`: rebuilding `key_map` / `free_list` from `is_active` -/
+
+/-- a key no active entry carries is left as it was -/
+theorem rebuild_get_other (es : List Entry) (i : Nat) (km : KeyMap) (fl : List Nat) (k : Key)
+    (h : ∀ (j : Nat) (e : Entry), es[j]? = some e → e.isActive = true → e.ekey ≠ k) :
+    kmGet (rebuild es i km fl).1 k = kmGet km k := by
+  induction es generalizing i km fl with
+  | nil => rfl
+  | cons e es ih =>
+    have hrest : ∀ (j : Nat) (e' : Entry), es[j]? = some e' → e'.isActive = true → e'.ekey ≠ k :=
+      fun j e' hj => h (j + 1) e' (by simpa using hj)
+    unfold rebuild
+    split
+    · next ha =>
+      rw [ih _ _ _ hrest, kmGet_insert, if_neg (h 0 e (by simp) ha)]
+    · exact ih _ _ _ hrest
+
+/-- the active entry that carries `k` (when it is the only one) is what the rebuilt map answers -/
+theorem rebuild_get_unique (es : List Entry) (i : Nat) (km : KeyMap) (fl : List Nat) (k : Key) (j : Nat) (e : Entry)
+    (hj : es[j]? = some e) (ha : e.isActive = true) (hk : e.ekey = k)
+    (huniq : ∀ (j' : Nat) (e' : Entry), es[j']? = some e' → e'.isActive = true → e'.ekey = k → j' = j) :
+    kmGet (rebuild es i km fl).1 k = some (i + j) := by
+  induction es generalizing i j km fl with
+  | nil => simp at hj
+  | cons e0 es ih =>
+    cases j with
+    | zero =>
+      simp only [List.getElem?_cons_zero, Option.some.injEq] at hj
+      subst hj
+      have hrest : ∀ (j : Nat) (e' : Entry), es[j]? = some e' → e'.isActive = true → e'.ekey ≠ k := by
+        intro j e' hj' ha' hk'
+        have := huniq (j + 1) e' (by simpa using hj') ha' hk'
+        omega
+      unfold rebuild
+      rw [if_pos ha, rebuild_get_other _ _ _ _ _ hrest, kmGet_insert, if_pos hk]
+      rfl
+    | succ j =>
+      have hj' : es[j]? = some e := by simpa using hj
+      have huniq' : ∀ (j' : Nat) (e' : Entry), es[j']? = some e' → e'.isActive = true → e'.ekey = k → j' = j := by
+        intro j' e' h1 h2 h3
+        have := huniq (j' + 1) e' (by simpa using h1) h2 h3
+        omega
+      unfold rebuild
+      split
+      · rw [ih _ _ _ _ hj' huniq']; congr 1; omega
+      · rw [ih _ _ _ _ hj' huniq']; congr 1; omega
+
+/-- whatever the rebuilt map answers was there before or is an active entry with that key -/
+theorem rebuild_get_sound (es : List Entry) (i : Nat) (km : KeyMap) (fl : List Nat) (k : Key) (v : Nat)
+    (h : kmGet (rebuild es i km fl).1 k = some v) :
+    kmGet km k = some v ∨ ∃ (j : Nat) (e : Entry), es[j]? = some e ∧ e.isActive = true ∧ e.ekey = k ∧ v = i + j := by
+  induction es generalizing i km fl with
+  | nil => exact Or.inl h
+  | cons e0 es ih =>
+    unfold rebuild at h
+    split at h
+    · next ha =>
+      rcases ih _ _ _ h with h1 | ⟨j, e, h1, h2, h3, h4⟩
+      · rw [kmGet_insert] at h1
+        split at h1
+        · next hk => cases h1; exact Or.inr ⟨0, e0, by simp, ha, hk, rfl⟩
+        · exact Or.inl h1
+      · exact Or.inr ⟨j + 1, e, by simpa using h1, h2, h3, by omega⟩
+    · rcases ih _ _ _ h with h1 | ⟨j, e, h1, h2, h3, h4⟩
+      · exact Or.inl h1
+      · exact Or.inr ⟨j + 1, e, by simpa using h1, h2, h3, by omega⟩
+
+theorem rebuild_keys_nodup (es : List Entry) (i : Nat) (km : KeyMap) (fl : List Nat)
+    (h : (km.map Prod.fst).Nodup) : ((rebuild es i km fl).1.map Prod.fst).Nodup := by
+  induction es generalizing i km fl with
+  | nil => exact h
+  | cons e0 es ih =>
+    unfold rebuild
+    split
+    · exact ih _ _ _ (keys_insert_nodup _ _ _ h)
+    · exact ih _ _ _ h
+
+/-- the rebuilt free list: what was there plus exactly the inactive indices -/
+theorem rebuild_free_mem (es : List Entry) (i : Nat) (km : KeyMap) (fl : List Nat) (v : Nat) :
+    v ∈ (rebuild es i km fl).2 ↔
+      v ∈ fl ∨ ∃ (j : Nat) (e : Entry), es[j]? = some e ∧ e.isActive = false ∧ v = i + j := by
+  induction es generalizing i km fl with
+  | nil => simp [rebuild]
+  | cons e0 es ih =>
+    unfold rebuild
+    split
+    · next ha =>
+      rw [ih]
+      constructor
+      · rintro (h | ⟨j, e, h1, h2, h3⟩)
+        · exact Or.inl h
+        · exact Or.inr ⟨j + 1, e, by simpa using h1, h2, by omega⟩
+      · rintro (h | ⟨j, e, h1, h2, h3⟩)
+        · exact Or.inl h
+        · cases j with
+          | zero =>
+            simp only [List.getElem?_cons_zero, Option.some.injEq] at h1
+            subst h1; rw [ha] at h2; cases h2
+          | succ j => exact Or.inr ⟨j, e, by simpa using h1, h2, by omega⟩
+    · next ha =>
+      rw [ih]
+      constructor
+      · rintro (h | ⟨j, e, h1, h2, h3⟩)
+        · rcases List.mem_cons.mp h with h | h
+          · exact Or.inr ⟨0, e0, by simp, by simpa using ha, by omega⟩
+          · exact Or.inl h
+        · exact Or.inr ⟨j + 1, e, by simpa using h1, h2, by omega⟩
+      · rintro (h | ⟨j, e, h1, h2, h3⟩)
+        · exact Or.inl (List.mem_cons_of_mem _ h)
+        · cases j with
+          | zero => exact Or.inl (by simp [h3])
+          | succ j => exact Or.inr ⟨j, e, by simpa using h1, h2, by omega⟩
+
+theorem rebuild_free_nodup (es : List Entry) (i : Nat) (km : KeyMap) (fl : List Nat)
+    (h : fl.Nodup) (hb : ∀ x ∈ fl, x < i) : (rebuild es i km fl).2.Nodup := by
+  induction es generalizing i km fl with
+  | nil => exact h
+  | cons e0 es ih =>
+    unfold rebuild
+    split
+    · exact ih _ _ _ h (fun x hx => by have := hb x hx; omega)
+    · refine ih _ _ _ (List.nodup_cons.mpr ⟨fun hm => by have := hb i hm; omega, h⟩) ?_
+      intro x hx
+      rcases List.mem_cons.mp hx with hx | hx
+      · omega
+      · have := hb x hx; omega
+
+
+theorem isActive_iff (e : Entry) : e.isActive = true ↔ e.ekey ≠ zeroKey := by
+  simp [Entry.isActive]
+
+/-- `load_from_disk` on an entry array + header that satisfied the invariant when they were
+written, none of whose linked keys is all-zero: the rebuilt `key_map` and `free_list` restore
+the invariant with the SAME slot list (the free list may come back in another order). -/
+theorem load_rep (s0 : Ptr) (L F : List Nat) (hr : RepF s0 L F)
+    (hnz : ∀ i ∈ L, keyAt s0.entries i ≠ zeroKey)
+    (hdr : Header) (hh : hdr.head = s0.header.head) (ht : hdr.tail = s0.header.tail) (hv : hdr.version ≤ 1)
+    (s : Ptr) (hcap : s.cap = s0.cap) (g : Nat) :
+    Rep { s with header := hdr, entries := s0.entries, keyMap := (rebuild s0.entries 0 [] []).1,
+                 freeList := (rebuild s0.entries 0 [] []).2, gen := g } L ∧
+    (rebuild s0.entries 0 [] []).2.length = F.length := by
+  have hcov : ∀ j, j < s0.entries.length → j ∈ L ∨ j ∈ F := by
+    intro j hj
+    have : j ∈ L ++ F := hr.slots.mem_iff.mpr (List.mem_range.mpr (hr.len ▸ hj))
+    exact List.mem_append.mp this
+  have hact : ∀ (j : Nat) (e : Entry), s0.entries[j]? = some e → (e.isActive = true ↔ j ∈ L) := by
+    intro j e hj
+    constructor
+    · intro ha
+      rcases hcov j (getElem?_lt hj) with h | h
+      · exact h
+      · have := hr.freeEmpty j h
+        rw [hj] at this
+        cases this
+        simp [Entry.isActive, Entry.empty] at ha
+    · intro hjL
+      rw [isActive_iff, ← keyAt_of hj]
+      exact hnz j hjL
+  have hfree : ∀ v, v ∈ (rebuild s0.entries 0 [] []).2 ↔ v < s0.entries.length ∧ v ∉ L := by
+    intro v
+    rw [rebuild_free_mem]
+    constructor
+    · rintro (h | ⟨j, e, h1, h2, h3⟩)
+      · cases h
+      · have : v = j := by omega
+        subst this
+        refine ⟨getElem?_lt h1, fun hL => ?_⟩
+        rw [(hact v e h1).mpr hL] at h2; cases h2
+    · rintro ⟨hlt, hnL⟩
+      refine Or.inr ⟨v, _, List.getElem?_eq_getElem hlt, ?_, by omega⟩
+      cases ha : (s0.entries[v]).isActive with
+      | false => rfl
+      | true => exact absurd ((hact v _ (List.getElem?_eq_getElem hlt)).mp ha) hnL
+  have hnd' : (rebuild s0.entries 0 [] []).2.Nodup :=
+    rebuild_free_nodup _ _ _ _ List.nodup_nil (fun x hx => by cases hx)
+  have hslots : (L ++ (rebuild s0.entries 0 [] []).2).Perm (List.range s0.cap) := by
+    rw [List.perm_ext_iff_of_nodup _ List.nodup_range]
+    · intro v
+      rw [List.mem_append, hfree, List.mem_range, ← hr.len]
+      constructor
+      · rintro (h | h)
+        · exact hr.ltL h
+        · exact h.1
+      · intro hlt
+        by_cases hL : v ∈ L
+        · exact Or.inl hL
+        · exact Or.inr ⟨hlt, hL⟩
+    · rw [List.nodup_append]
+      refine ⟨hr.nodupL, hnd', ?_⟩
+      intro a ha b hb hab
+      subst hab
+      exact ((hfree a).mp hb).2 ha
+  refine ⟨?_, ?_⟩
+  · refine ⟨by show s0.entries.length = s.cap; rw [hcap]; exact hr.len, by show s.cap ≤ SENT; rw [hcap]; exact hr.u32,
+      by show (L ++ (rebuild s0.entries 0 [] []).2).Perm (List.range s.cap); rw [hcap]; exact hslots,
+      ⟨hr.list.seg, ht.trans hr.list.tail, hh.trans hr.list.head⟩,
+      rebuild_keys_nodup _ _ _ _ List.nodup_nil, ?_, ?_, hv, hr.flags0⟩
+    · intro k i
+      show kmGet (rebuild s0.entries 0 [] []).1 k = some i ↔ i ∈ L ∧ keyAt s0.entries i = k
+      constructor
+      · intro hg
+        rcases rebuild_get_sound _ _ _ _ _ _ hg with h | ⟨j, e, h1, h2, h3, h4⟩
+        · simp [kmGet] at h
+        · have : i = j := by omega
+          subst this
+          exact ⟨(hact i e h1).mp h2, by rw [keyAt_of h1]; exact h3⟩
+      · rintro ⟨hiL, hik⟩
+        have hlt := hr.ltL hiL
+        have hi : s0.entries[i]? = some s0.entries[i] := List.getElem?_eq_getElem hlt
+        have := rebuild_get_unique s0.entries 0 [] [] k i _ hi ((hact i _ hi).mpr hiL)
+          (by rw [← keyAt_of hi]; exact hik) (by
+            intro j' e' h1 h2 h3
+            exact hr.keyInj j' ((hact j' e' h1).mp h2) i hiL (by rw [keyAt_of h1, h3, hik]))
+        rw [this]; congr 1; omega
+    · intro i hi
+      show s0.entries[i]? = some Entry.empty
+      obtain ⟨hlt, hnL⟩ := (hfree i).mp hi
+      rcases hcov i hlt with h | h
+      · exact absurd h hnL
+      · exact hr.freeEmpty i h
+  · have h1 := hr.count
+    have h2 := hslots.length_eq
+    simp only [List.length_append, List.length_range] at h2
+    omega
+
+
+open Cascette.Spec.Lru
+
+/-! ### checkpoint files: pointer level (bytes) vs sequence level (key lists) -/
+
+/-- apply `f` to what every file holds -/
+def mapF {σ τ : Type} (f : σ → τ) (fs : Files σ) : Files τ := fs.map (fun p => (p.1, f p.2))
+
+section mapF
+variable {σ τ : Type} (f : σ → τ)
+
+theorem lookup_mapF (fs : Files σ) (g : Nat) : Files.lookup (mapF f fs) g = (Files.lookup fs g).map f := by
+  induction fs with
+  | nil => rfl
+  | cons p fs ih =>
+    obtain ⟨a, v⟩ := p
+    simp only [mapF, List.map_cons, Files.lookup] at ih ⊢
+    split
+    · rfl
+    · exact ih
+
+theorem delete_mapF (fs : Files σ) (g : Nat) : Files.delete (mapF f fs) g = mapF f (Files.delete fs g) := by
+  simp only [Files.delete, mapF, List.filter_map]
+  rfl
+
+theorem scan_mapF (fs : Files σ) (g p : Nat) : Files.scan (mapF f fs) g p = mapF f (Files.scan fs g p) := by
+  simp only [Files.scan, mapF, List.filter_map]
+  rfl
+
+theorem write_mapF (fs : Files σ) (g : Nat) (v : σ) :
+    Files.write (mapF f fs) g (f v) = mapF f (Files.write fs g v) := by
+  simp only [Files.write, delete_mapF]
+  rfl
+
+theorem latest_mapF (fs : Files σ) : Files.latest (mapF f fs) = Files.latest fs := by
+  induction fs with
+  | nil => rfl
+  | cons p fs ih =>
+    obtain ⟨a, v⟩ := p
+    simp only [mapF, List.map_cons, Files.latest] at ih ⊢
+    rw [ih]
+
+theorem mem_mapF {fs : Files σ} {p : Nat × τ} (h : p ∈ mapF f fs) : ∃ p0 ∈ fs, p = (p0.1, f p0.2) := by
+  obtain ⟨p0, h1, h2⟩ := List.mem_map.mp h
+  exact ⟨p0, h1, h2.symm⟩
+
+end mapF
+
+/-- what a checkpoint file says at sequence level: the keys of the linked entries in list order
+(`[]` for bytes that do not parse or do not describe a terminating list). -/
+def snapOf (md5 : Bytes → Bytes) (data : Bytes) : List Key :=
+  match deserialize md5 data with
+  | none => []
+  | some (h, es) =>
+    match slotWalk es (es.length + 1) h.tail with
+    | none => []
+    | some L => L.map (keyAt es)
+
+/-- the file was written by `checkpoint_to_disk` from a state of capacity `cap` that satisfied
+the representation invariant and held 9-byte keys. -/
+def GoodFile (md5 : Bytes → Bytes) (cap : Nat) (data : Bytes) : Prop :=
+  ∃ s0 L, Rep s0 L ∧ s0.cap = cap ∧ (∀ i ∈ L, (keyAt s0.entries i).length = 9) ∧
+    data = serialize md5 s0.header s0.entries
+
+theorem SENT_lt : SENT < 2 ^ 32 := by decide
+
+theorem seg_bounds (es : List Entry) (L : List Nat) (p n : Nat) (hseg : Seg es p L n)
+    (hp : p ≤ SENT) (hn : n ≤ SENT) (hL : ∀ i ∈ L, i ≤ SENT) :
+    ∀ i ∈ L, ∀ e, es[i]? = some e → e.prev ≤ SENT ∧ e.next ≤ SENT := by
+  induction L generalizing p with
+  | nil => intro i hi; cases hi
+  | cons a L ih =>
+    obtain ⟨⟨e0, he0, hp0, hn0⟩, hrest⟩ := hseg
+    intro i hi e he
+    rcases List.mem_cons.mp hi with hi | hi
+    · subst hi
+      rw [he0] at he; cases he
+      refine ⟨by omega, ?_⟩
+      rw [hn0]
+      rcases headD_mem_or L n with ⟨_, h⟩ | h
+      · omega
+      · exact hL _ (List.mem_cons_of_mem _ h)
+    · exact ih a hrest (hL a List.mem_cons_self) (fun j hj => hL j (List.mem_cons_of_mem _ hj)) i hi e he
+
+/-- under the invariant (and 9-byte keys) every field fits its on-disk width. -/
+theorem rep_fits {s : Ptr} {L F : List Nat} (h : RepF s L F) (h9 : ∀ i ∈ L, (keyAt s.entries i).length = 9) :
+    (∀ e ∈ s.entries, Proofs.LruPtr.Entry.Fits e) ∧ s.header.head < 2 ^ 32 ∧ s.header.tail < 2 ^ 32 := by
+  have hS := SENT_lt
+  have hLS : ∀ i ∈ L, i ≤ SENT := fun i hi => by have := h.ltL hi; have := h.lenS; omega
+  refine ⟨?_, ?_, ?_⟩
+  · intro e he
+    obtain ⟨i, hi, hie⟩ := List.getElem_of_mem he
+    have hie' : s.entries[i]? = some e := by rw [List.getElem?_eq_getElem hi, hie]
+    have : i ∈ L ++ F := h.slots.mem_iff.mpr (List.mem_range.mpr (h.len ▸ hi))
+    rcases List.mem_append.mp this with hiL | hiF
+    · obtain ⟨b1, b2⟩ := seg_bounds _ _ _ _ h.list.seg (Nat.le_refl _) (Nat.le_refl _) hLS i hiL e hie'
+      refine ⟨by omega, by omega, ?_, ?_⟩
+      · rw [← keyAt_of hie']; exact h9 i hiL
+      · rw [h.flags0 i e hie']; decide
+    · have := h.freeEmpty i hiF
+      rw [hie'] at this; cases this
+      exact ⟨hS, hS, by decide, by decide⟩
+  · rw [h.list.head]
+    rcases getLastD_mem_or L SENT with ⟨_, h'⟩ | h'
+    · omega
+    · have := hLS _ h'; omega
+  · rw [h.list.tail]
+    rcases headD_mem_or L SENT with ⟨_, h'⟩ | h'
+    · omega
+    · have := hLS _ h'; omega
+
+/-- a good file parses back to the array and header indices it was written from, and at
+sequence level it says: the keys of the linked slots, in order. -/
+theorem goodfile_decode (md5 : Bytes → Bytes) (hmd5 : ∀ x, (md5 x).length = 16) (s0 : Ptr) (L : List Nat)
+    (hr : Rep s0 L) (h9 : ∀ i ∈ L, (keyAt s0.entries i).length = 9) :
+    deserialize md5 (serialize md5 s0.header s0.entries) =
+      some ({ s0.header with hash := md5 (headerBytes s0.header zeros16 ++ bodyBytes s0.entries) }, s0.entries) ∧
+    snapOf md5 (serialize md5 s0.header s0.entries) = L.map (keyAt s0.entries) := by
+  obtain ⟨hf, hh, ht⟩ := rep_fits hr h9
+  have hd := Proofs.LruPtr.codec_roundtrip md5 hmd5 s0.header s0.entries hr.ver hh ht hf
+  refine ⟨hd, ?_⟩
+  unfold snapOf
+  rw [hd]
+  have := (slots_rep hr).1
+  unfold Ptr.slots at this
+  simp only [this]
+
+
+section seqfacts2
+variable {κ : Type} [DecidableEq κ]
+
+/-- at sequence level a key gets into the table only by being touched (no reload). -/
+theorem seq_step_mem (zero : κ) (q : Seq κ) (op : Op κ) (hop : Proofs.Lru.isReload op = false) (x : κ)
+    (hx : x ∈ (LruSeq.step zero q op).1.order) : x ∈ q.order ∨ op = .touch x := by
+  cases op with
+  | touch k =>
+    rcases Proofs.Lru.touch_mem hx with h | h
+    · exact Or.inr (by rw [h])
+    · exact Or.inl h
+  | remove k =>
+    simp only [LruSeq.step, LruSeq.remove] at hx
+    split at hx
+    · exact Or.inl (List.mem_of_mem_erase hx)
+    · exact Or.inl hx
+  | evictTail =>
+    simp only [LruSeq.step, LruSeq.evictTail] at hx
+    split at hx
+    · exact Or.inl hx
+    · next y t ho => exact Or.inl (by rw [ho]; exact List.mem_cons_of_mem _ hx)
+  | evictTo t a => exact Or.inl ((Proofs.Lru.evictTo_refines q t a).2.2.2.subset hx)
+  | bump => exact Or.inl hx
+  | checkpoint => exact Or.inl hx
+  | load g => simp [Proofs.Lru.isReload] at hop
+  | runCycle l a => simp [Proofs.Lru.isReload] at hop
+  | reset => simp [LruSeq.step] at hx
+  | reopen => simp [LruSeq.step] at hx
+
+/-- only `checkpoint` and `run_cycle` change the set of files. -/
+theorem seq_step_files (zero : κ) (q : Seq κ) (op : Op κ) (h1 : op ≠ .checkpoint) (h2 : ∀ l a, op ≠ .runCycle l a) :
+    (LruSeq.step zero q op).1.files = q.files := by
+  cases op with
+  | touch k => exact Proofs.Lru.touch_files q k
+  | remove k => simp only [LruSeq.step, LruSeq.remove]; split <;> rfl
+  | evictTail => simp only [LruSeq.step, LruSeq.evictTail]; split <;> rfl
+  | evictTo t a => rfl
+  | bump => rfl
+  | checkpoint => exact absurd rfl h1
+  | load g => simp only [LruSeq.step]; split <;> rfl
+  | runCycle l a => exact absurd rfl (h2 l a)
+  | reset => rfl
+  | reopen => rfl
+
+end seqfacts2
+
+/-- the simulation relation with persistence: `Sim`, plus every pointer-level file is a good
+checkpoint whose sequence-level reading is the sequence model's file, plus what the sequence
+level needs to know about the keys (9 bytes, never all-zero). -/
+structure Sim2 (md5 : Bytes → Bytes) (s : Ptr) (q : Seq Key) : Prop where
+  sim : Sim s q
+  files : q.files = mapF (snapOf md5) s.files
+  good : ∀ p ∈ s.files, GoodFile md5 s.cap p.2
+  keys9 : ∀ k ∈ q.order, k.length = 9
+  noZero : Proofs.Lru.NoZero zeroKey q
+
+theorem sim2_init (md5 : Bytes → Bytes) (cap : Nat) (hcap : cap ≤ SENT) :
+    Sim2 md5 (Ptr.init cap []) (Seq.init cap) :=
+  ⟨sim_init cap hcap [], rfl, fun p hp => (by cases hp), fun k hk => (by cases hk), Proofs.Lru.noZero_init _ _⟩
+
+/-- the key-level side conditions of one operation: a touched key is a `[u8; 9]` and not all-zero -/
+def OpOk (op : Op Key) : Prop := ∀ k, op = .touch k → k.length = 9 ∧ k ≠ zeroKey
+
+theorem sim_s_cap {s : Ptr} {q : Seq Key} (h : Sim s q) : q.cap = s.cap := by
+  obtain ⟨_, _, _, _, hc, _⟩ := h; exact hc
+
+/-- in-memory operations and `bump`/`reset`/`reopen` under `Sim2`. -/
+theorem step_sim2_mem (md5 : Bytes → Bytes) (s : Ptr) (q : Seq Key) (op : Op Key) (h : Sim2 md5 s q)
+    (hok : OpOk op) (hr : Proofs.Lru.isReload op = false) (hc : op ≠ .checkpoint) :
+    ∃ s', step md5 s op = some (s', (LruSeq.step zeroKey q op).2) ∧ Sim2 md5 s' (LruSeq.step zeroKey q op).1 := by
+  obtain ⟨s', hstep, hsim, hfs⟩ := step_sim md5 s q op h.sim hr
+  have hfs := hfs hc
+  have hrc : ∀ l a, op ≠ .runCycle l a := by
+    intro l a heq; subst heq; simp [Proofs.Lru.isReload] at hr
+  have hqf := seq_step_files zeroKey q op hc hrc
+  have hcap : s'.cap = s.cap := by
+    rw [← sim_s_cap hsim, Proofs.Lru.step_cap, sim_s_cap h.sim]
+  refine ⟨s', hstep, hsim, by rw [hqf, hfs]; exact h.files, by rw [hfs, hcap]; exact h.good, ?_, ?_⟩
+  · intro k hk
+    rcases seq_step_mem zeroKey q op hr k hk with hm | hm
+    · exact h.keys9 k hm
+    · exact (hok k hm).1
+  · exact Proofs.Lru.step_noZero zeroKey op (fun heq => (hok zeroKey heq).2 rfl) h.noZero
+
+
+theorem sim_keys9 {s : Ptr} {q : Seq Key} {L : List Nat} (ho : q.order = L.map (keyAt s.entries))
+    (h9 : ∀ k ∈ q.order, k.length = 9) : ∀ i ∈ L, (keyAt s.entries i).length = 9 :=
+  fun i hi => h9 _ (by rw [ho]; exact List.mem_map_of_mem hi)
+
+/-- `checkpoint_to_disk` under `Sim2`: the file written is a good file whose sequence-level
+reading is the current order. -/
+theorem checkpoint_sim2 (md5 : Bytes → Bytes) (hmd5 : ∀ x, (md5 x).length = 16) (s : Ptr) (q : Seq Key)
+    (h : Sim2 md5 s q) : Sim2 md5 (checkpoint md5 s) (LruSeq.step zeroKey q .checkpoint).1 := by
+  obtain ⟨L, hr, ho, hf, hc, hg, hp⟩ := h.sim
+  have h9 := sim_keys9 ho h.keys9
+  have hsnap : snapOf md5 (serialize md5 s.header s.entries) = q.order := by
+    rw [(goodfile_decode md5 hmd5 s L hr h9).2, ho]
+  have hgood : GoodFile md5 s.cap (serialize md5 s.header s.entries) := ⟨s, L, hr, rfl, h9, rfl⟩
+  have hw : ∀ p ∈ Files.write s.files s.gen (serialize md5 s.header s.entries), GoodFile md5 s.cap p.2 := by
+    intro p hp
+    rcases Proofs.Lru.mem_write hp with rfl | hp
+    · exact hgood
+    · exact h.good p hp
+  have hwf : Files.write q.files q.gen q.order =
+      mapF (snapOf md5) (Files.write s.files s.gen (serialize md5 s.header s.entries)) := by
+    rw [← write_mapF, hsnap, h.files, hg]
+  refine ⟨⟨L, ⟨hr.len, hr.u32, hr.slots, hr.list, hr.kmNodup, hr.km, hr.freeEmpty, hr.ver, hr.flags0⟩,
+    ho, hf, hc, hg, hp⟩, ?_, ?_, h.keys9,
+    Proofs.Lru.step_noZero zeroKey .checkpoint (fun heq => by cases heq) h.noZero⟩
+  · show (if q.prev ≠ 0 ∧ q.prev ≠ q.gen then Files.delete (Files.write q.files q.gen q.order) q.prev
+          else Files.write q.files q.gen q.order) =
+        mapF (snapOf md5) (if s.prev ≠ 0 ∧ s.prev ≠ s.gen then
+          Files.delete (Files.write s.files s.gen (serialize md5 s.header s.entries)) s.prev
+          else Files.write s.files s.gen (serialize md5 s.header s.entries))
+    rw [hp, hg] at *
+    split
+    · rw [← delete_mapF, hwf]
+    · exact hwf
+  · intro p hp'
+    have : p ∈ (if s.prev ≠ 0 ∧ s.prev ≠ s.gen then
+          Files.delete (Files.write s.files s.gen (serialize md5 s.header s.entries)) s.prev
+          else Files.write s.files s.gen (serialize md5 s.header s.entries)) := hp'
+    split at this
+    · exact hw p (Proofs.Lru.mem_delete this)
+    · exact hw p this
+
+/-- `load_from_disk` under `Sim2`. -/
+theorem load_sim2 (md5 : Bytes → Bytes) (hmd5 : ∀ x, (md5 x).length = 16) (s : Ptr) (q : Seq Key) (g : Nat)
+    (h : Sim2 md5 s q) :
+    ∃ s', (loadFromDisk md5 s g).1 = s' ∧
+      (if (loadFromDisk md5 s g).2 then Out.ok else Out.err) = (LruSeq.step zeroKey q (.load g)).2 ∧
+      Sim2 md5 s' (LruSeq.step zeroKey q (.load g)).1 ∧
+      ((loadFromDisk md5 s g).2 = true → ∃ snap, Files.lookup q.files g = some snap) ∧
+      ((loadFromDisk md5 s g).2 = false → Files.lookup q.files g = none) := by
+  have hlq : Files.lookup q.files g = (Files.lookup s.files g).map (snapOf md5) := by
+    rw [h.files, lookup_mapF]
+  cases hl : Files.lookup s.files g with
+  | none =>
+    rw [hl] at hlq
+    refine ⟨s, ?_, ?_, ?_, ?_, ?_⟩
+    · simp only [loadFromDisk, hl]
+    · simp only [loadFromDisk, hl, LruSeq.step, hlq, Option.map]; rfl
+    · simp only [LruSeq.step, hlq, Option.map]; exact h
+    · simp only [loadFromDisk, hl]; intro hc; cases hc
+    · intro _; exact hlq
+  | some data =>
+    rw [hl] at hlq
+    obtain ⟨s0, L0, hr0, hcap0, h90, hdata⟩ := h.good _ (Proofs.Lru.lookup_mem hl)
+    obtain ⟨hdec, hsnap⟩ := goodfile_decode md5 hmd5 s0 L0 hr0 h90
+    rw [← hdata] at hdec hsnap
+    have hzs : zeroKey ∉ snapOf md5 data := by
+      have hm : (g, snapOf md5 data) ∈ q.files := Proofs.Lru.lookup_mem (by rw [hlq]; rfl)
+      exact h.noZero.files _ hm
+    have hnz : ∀ i ∈ L0, keyAt s0.entries i ≠ zeroKey := by
+      intro i hi heq
+      apply hzs; rw [hsnap, ← heq]; exact List.mem_map_of_mem hi
+    obtain ⟨L, hr, ho, hf, hc, hg, hp⟩ := h.sim
+    obtain ⟨hrep, hflen⟩ := load_rep s0 L0 s0.freeList hr0 hnz
+      { s0.header with hash := md5 (headerBytes s0.header zeros16 ++ bodyBytes s0.entries) } rfl rfl hr0.ver
+      s hcap0.symm g
+    have hload : loadFromDisk md5 s g =
+        ({ s with header := { s0.header with hash := md5 (headerBytes s0.header zeros16 ++ bodyBytes s0.entries) },
+                  entries := s0.entries, keyMap := (rebuild s0.entries 0 [] []).1,
+                  freeList := (rebuild s0.entries 0 [] []).2, gen := g }, true) := by
+      simp only [loadFromDisk, hl, hdec]
+    have hstepq : LruSeq.step zeroKey q (.load g) = (LruSeq.loadSnap zeroKey q g (snapOf md5 data), .ok) := by
+      simp only [LruSeq.step, hlq, Option.map]
+    rw [hload, hstepq]
+    refine ⟨_, rfl, rfl, ?_, fun _ => ⟨_, hlq⟩, fun hc => by cases hc⟩
+    have hfilt : (snapOf md5 data).filter (fun k => k ≠ zeroKey) = snapOf md5 data :=
+      Proofs.Lru.filter_ne_zero hzs
+    refine ⟨⟨L0, hrep, ?_, ?_, hc, rfl, hp⟩, h.files, ?_, ?_, ?_⟩
+    · show (snapOf md5 data).filter (fun k => k ≠ zeroKey) = L0.map (keyAt s0.entries)
+      rw [hfilt, hsnap]
+    · show q.cap - ((snapOf md5 data).filter (fun k => k ≠ zeroKey)).length = (rebuild s0.entries 0 [] []).2.length
+      rw [hfilt, hsnap, hflen, List.length_map, hc, ← hcap0]
+      have := hr0.count; omega
+    · exact h.good
+    · intro k hk
+      have hk' : k ∈ (snapOf md5 data).filter (fun k => k ≠ zeroKey) := hk
+      rw [hfilt, hsnap] at hk'
+      obtain ⟨i, hi, hik⟩ := List.mem_map.mp hk'
+      rw [← hik]; exact h90 i hi
+    · have := Proofs.Lru.step_noZero zeroKey (.load g) (fun heq => by cases heq) h.noZero
+      rw [hstepq] at this; exact this
+
+
+/-- the eviction step of `run_cycle`. -/
+theorem cycleEvict_sim (s1 : Ptr) (q1 : Seq Key) (limit avg : Nat) (h : Sim s1 q1) :
+    ∃ s2, (if 0 < limit ∧ 0 < avg then
+            if limit < len s1 * avg then evictToTarget s1 (len s1 * avg - limit) avg else some (s1, 0, 0)
+          else some (s1, 0, 0)) = some (s2, (LruSeq.cycleEvict q1 limit avg).2) ∧
+      s2.files = s1.files ∧ Sim s2 (LruSeq.cycleEvict q1 limit avg).1 := by
+  have hlen : len s1 = q1.order.length := len_sim h
+  unfold LruSeq.cycleEvict
+  rw [hlen]
+  split
+  · split
+    · obtain ⟨s2, h1, h2, h3⟩ := evictTo_sim s1 q1 (q1.order.length * avg - limit) avg h
+      exact ⟨s2, h1, h2, h3⟩
+    · exact ⟨s1, rfl, rfl, h⟩
+  · exact ⟨s1, rfl, rfl, h⟩
+
+theorem sim_set_files {s : Ptr} {q : Seq Key} (h : Sim s q) (X : Files Bytes) (Y : Files (List Key)) :
+    Sim { s with files := X } { q with files := Y } := by
+  obtain ⟨L, hr, ho, hf, hc, hg, hp⟩ := h
+  exact ⟨L, ⟨hr.len, hr.u32, hr.slots, hr.list, hr.kmNodup, hr.km, hr.freeEmpty, hr.ver, hr.flags0⟩,
+    ho, hf, hc, hg, hp⟩
+
+/-- everything `run_cycle` does after the optional load. -/
+def cycleTail (s1 : Ptr) (nLoaded limit avg : Nat) : Option (Ptr × Out) :=
+  match (if 0 < limit ∧ 0 < avg then
+          if limit < len s1 * avg then evictToTarget s1 (len s1 * avg - limit) avg else some (s1, 0, 0)
+        else some (s1, 0, 0)) with
+  | none => none
+  | some (s2, nEv, freed) =>
+    let s3 := { s2 with files := Files.scan s2.files s2.gen s2.prev }
+    match iter s3 with
+    | none => none
+    | some l => some (s3, .cycle nLoaded nEv freed l.length)
+
+theorem cycleTail_sim2 (md5 : Bytes → Bytes) (s1 : Ptr) (q1 : Seq Key) (nLoaded limit avg : Nat)
+    (h : Sim2 md5 s1 q1) :
+    ∃ s3, cycleTail s1 nLoaded limit avg =
+        some (s3, .cycle nLoaded (LruSeq.cycleEvict q1 limit avg).2.1 (LruSeq.cycleEvict q1 limit avg).2.2
+                  (Seq.iter zeroKey (LruSeq.cycleEvict q1 limit avg).1).length) ∧
+      Sim2 md5 s3 { (LruSeq.cycleEvict q1 limit avg).1 with files := Files.scan q1.files q1.gen q1.prev } := by
+  obtain ⟨s2, hev, hfs, hsim⟩ := cycleEvict_sim s1 q1 limit avg h.sim
+  obtain ⟨hqf, hqc, hqg, hqp⟩ := Proofs.Lru.cycleEvict_files q1 limit avg
+  obtain ⟨_, _, _, hsub⟩ := Proofs.Lru.cycleEvict_refines q1 limit avg
+  have hs3 := sim_set_files hsim (Files.scan s2.files s2.gen s2.prev) (Files.scan q1.files q1.gen q1.prev)
+  have hiter : iter { s2 with files := Files.scan s2.files s2.gen s2.prev } =
+      some (Seq.iter zeroKey (LruSeq.cycleEvict q1 limit avg).1) := (iter_sim hsim : iter s2 = _)
+  have hg2 : s2.gen = q1.gen := by obtain ⟨_, _, _, _, _, hg, _⟩ := hsim; rw [← hg, hqg]
+  have hp2 : s2.prev = q1.prev := by obtain ⟨_, _, _, _, _, _, hp⟩ := hsim; rw [← hp, hqp]
+  have hc2 : s2.cap = s1.cap := by rw [← sim_s_cap hsim, hqc, sim_s_cap h.sim]
+  refine ⟨{ s2 with files := Files.scan s2.files s2.gen s2.prev }, ?_, hs3, ?_, ?_, ?_, ?_⟩
+  · unfold cycleTail
+    rw [hev]
+    simp only [hiter]
+  · show Files.scan q1.files q1.gen q1.prev = mapF (snapOf md5) (Files.scan s2.files s2.gen s2.prev)
+    rw [← scan_mapF, hfs, h.files, hg2, hp2]
+  · intro p hp
+    have : p ∈ s1.files := hfs ▸ Proofs.Lru.mem_scan hp
+    show GoodFile md5 s2.cap p.2
+    rw [hc2]; exact h.good p this
+  · intro k hk
+    exact h.keys9 k (hsub.subset hk)
+  · exact ⟨fun hm => h.noZero.order (hsub.subset hm), fun p hp => h.noZero.files p (Proofs.Lru.mem_scan hp)⟩
+
+theorem runCycle_eq (md5 : Bytes → Bytes) (s : Ptr) (limit avg : Nat) :
+    runCycle md5 s limit avg =
+      match (match Files.latest s.files with
+             | none => some (s, 0)
+             | some g => if (loadFromDisk md5 s g).2 then some ((loadFromDisk md5 s g).1, len (loadFromDisk md5 s g).1) else none) with
+      | none => some (s, .err)
+      | some (s1, n) => cycleTail s1 n limit avg := rfl
+
+/-- `run_cycle` under `Sim2`. -/
+theorem runCycle_sim2 (md5 : Bytes → Bytes) (hmd5 : ∀ x, (md5 x).length = 16) (s : Ptr) (q : Seq Key)
+    (limit avg : Nat) (h : Sim2 md5 s q) :
+    ∃ s', runCycle md5 s limit avg = some (s', (LruSeq.step zeroKey q (.runCycle limit avg)).2) ∧
+      Sim2 md5 s' (LruSeq.step zeroKey q (.runCycle limit avg)).1 := by
+  rw [runCycle_eq]
+  have hlat : Files.latest q.files = Files.latest s.files := by rw [h.files, latest_mapF]
+  cases hl : Files.latest s.files with
+  | none =>
+    rw [hl] at hlat
+    obtain ⟨s3, h1, h2⟩ := cycleTail_sim2 md5 s q 0 limit avg h
+    refine ⟨s3, ?_, ?_⟩
+    · simp only [h1, LruSeq.step, hlat]
+    · simp only [LruSeq.step, hlat]; exact h2
+  | some g =>
+    rw [hl] at hlat
+    obtain ⟨s1, hs1, hout, hsim1, hsome, hnone⟩ := load_sim2 md5 hmd5 s q g h
+    cases hb : (loadFromDisk md5 s g).2 with
+    | false =>
+      have hln := hnone hb
+      refine ⟨s, ?_, ?_⟩
+      · simp only [hb, LruSeq.step, hlat, hln]; rfl
+      · simp only [LruSeq.step, hlat, hln]; exact h
+    | true =>
+      obtain ⟨snap, hsnap⟩ := hsome hb
+      have hq1 : (LruSeq.step zeroKey q (.load g)).1 = LruSeq.loadSnap zeroKey q g snap := by
+        simp only [LruSeq.step, hsnap]
+      rw [hq1] at hsim1
+      have hlen : len s1 = (LruSeq.loadSnap zeroKey q g snap).order.length := len_sim hsim1.sim
+      obtain ⟨s3, h1, h2⟩ := cycleTail_sim2 md5 s1 _ (len s1) limit avg hsim1
+      refine ⟨s3, ?_, ?_⟩
+      · simp only [hb, if_true, hs1, h1, LruSeq.step, hlat, hsnap]
+        rw [hlen]
+      · simp only [LruSeq.step, hlat, hsnap]; exact h2
+
+
+/-- EVERY operation (reloads included) under `Sim2`: the pointer level never panics / loops,
+answers what the sequence level answers, and the relation is kept — provided a touched key is a
+`[u8; 9]` that is not all-zero. -/
+theorem step_sim2 (md5 : Bytes → Bytes) (hmd5 : ∀ x, (md5 x).length = 16) (s : Ptr) (q : Seq Key)
+    (op : Op Key) (h : Sim2 md5 s q) (hok : OpOk op) :
+    ∃ s', LruPtr.step md5 s op = some (s', (LruSeq.step zeroKey q op).2) ∧ Sim2 md5 s' (LruSeq.step zeroKey q op).1 := by
+  cases op with
+  | checkpoint => exact ⟨checkpoint md5 s, rfl, checkpoint_sim2 md5 hmd5 s q h⟩
+  | load g =>
+    obtain ⟨s', h1, h2, h3, _, _⟩ := load_sim2 md5 hmd5 s q g h
+    refine ⟨s', ?_, h3⟩
+    simp only [LruPtr.step, h1, h2]
+  | runCycle l a =>
+    obtain ⟨s', h1, h2⟩ := runCycle_sim2 md5 hmd5 s q l a h
+    exact ⟨s', by simp only [LruPtr.step, h1], h2⟩
+  | touch k => exact step_sim2_mem md5 s q _ h hok rfl (fun heq => by cases heq)
+  | remove k => exact step_sim2_mem md5 s q _ h hok rfl (fun heq => by cases heq)
+  | evictTail => exact step_sim2_mem md5 s q _ h hok rfl (fun heq => by cases heq)
+  | evictTo t a => exact step_sim2_mem md5 s q _ h hok rfl (fun heq => by cases heq)
+  | bump => exact step_sim2_mem md5 s q _ h hok rfl (fun heq => by cases heq)
+  | reset => exact step_sim2_mem md5 s q _ h hok rfl (fun heq => by cases heq)
+  | reopen => exact step_sim2_mem md5 s q _ h hok rfl (fun heq => by cases heq)
+
+theorem run_sim2 (md5 : Bytes → Bytes) (hmd5 : ∀ x, (md5 x).length = 16) (ops : List (Op Key)) (s : Ptr)
+    (q : Seq Key) (h : Sim2 md5 s q) (hops : ∀ op ∈ ops, OpOk op) :
+    ∃ s', LruPtr.run md5 s ops = some (s', (LruSeq.run zeroKey q ops).2) ∧ Sim2 md5 s' (LruSeq.run zeroKey q ops).1 := by
+  induction ops generalizing s q with
+  | nil => exact ⟨s, rfl, h⟩
+  | cons op ops ih =>
+    obtain ⟨s1, h1, hs1⟩ := step_sim2 md5 hmd5 s q op h (hops op List.mem_cons_self)
+    obtain ⟨s2, h2, hs2⟩ := ih s1 _ hs1 (fun o ho => hops o (List.mem_cons_of_mem _ ho))
+    exact ⟨s2, by simp only [LruPtr.run, h1, h2, LruSeq.run], hs2⟩
+
+
+/-- an independent reader of header + array (`viewOf`, what `filecheck` prints) finds, under the
+representation invariant: a terminating walk over exactly the slots `L`, every `prev` and
+`mru_head` consistent, every unlinked slot empty and as many of them as `F`. -/
+theorem viewOf_rep {s : Ptr} {L F : List Nat} (h : RepF s L F) (hdr : Header)
+    (hh : hdr.head = s.header.head) (ht : hdr.tail = s.header.tail) :
+    viewOf hdr s.entries = some { entries := s.cap, linked := L.map (keyAt s.entries), free := F.length,
+                                  stale := 0, prevOk := true, headOk := true } := by
+  obtain ⟨hw, hp, hhd⟩ := slots_rep h
+  unfold Ptr.slots at hw
+  have hnd := h.nodup
+  rw [List.nodup_append] at hnd
+  have hperm : F.Perm ((List.range s.entries.length).filter (fun i => !L.contains i)) := by
+    have h1 := (h.slots.filter (fun i => !L.contains i))
+    rw [List.filter_append] at h1
+    have e1 : L.filter (fun i => !L.contains i) = [] := by
+      rw [List.filter_eq_nil_iff]; intro a ha; simp [ha]
+    have e2 : F.filter (fun i => !L.contains i) = F := by
+      rw [List.filter_eq_self]; intro a ha
+      have : a ∉ L := fun hL => hnd.2.2 a hL a ha rfl
+      simp [this]
+    rw [e1, e2, List.nil_append, ← h.len] at h1
+    exact h1
+  have hempty : ∀ i ∈ (List.range s.entries.length).filter (fun i => !L.contains i),
+      emptyAt s.entries i = true := by
+    intro i hi
+    have hiF : i ∈ F := hperm.mem_iff.mpr hi
+    unfold emptyAt
+    rw [h.freeEmpty i hiF]; simp
+  unfold viewOf
+  rw [ht, hw]
+  simp only [hp, hh, hhd, beq_self_eq_true]
+  have e3 : ((List.range s.entries.length).filter (fun i => !L.contains i)).filter (emptyAt s.entries) =
+      (List.range s.entries.length).filter (fun i => !L.contains i) := by
+    rw [List.filter_eq_self]; exact hempty
+  have e4 : ((List.range s.entries.length).filter (fun i => !L.contains i)).filter
+      (fun i => !emptyAt s.entries i) = [] := by
+    rw [List.filter_eq_nil_iff]; intro a ha; simp [hempty a ha]
+  rw [e3, e4, ← hperm.length_eq, h.len]
+  rfl
+
+/-- the file `checkpoint_to_disk` writes from a state under the invariant, read back by the
+independent reader: a well-formed list over `capacity` slots carrying the keys of the linked
+slots in order, `free_list.len()` empty slots, no stale slot. -/
+theorem fileView_checkpoint (md5 : Bytes → Bytes) (hmd5 : ∀ x, (md5 x).length = 16) (s : Ptr) (L : List Nat)
+    (hr : Rep s L) (h9 : ∀ i ∈ L, (keyAt s.entries i).length = 9) :
+    fileView md5 (checkpoint md5 s) =
+      some (some { entries := s.cap, linked := L.map (keyAt s.entries), free := s.freeList.length,
+                   stale := 0, prevOk := true, headOk := true }) := by
+  have hl : Files.lookup (checkpoint md5 s).files s.gen = some (serialize md5 s.header s.entries) := by
+    show Files.lookup (if s.prev ≠ 0 ∧ s.prev ≠ s.gen then
+          Files.delete (Files.write s.files s.gen (serialize md5 s.header s.entries)) s.prev
+          else Files.write s.files s.gen (serialize md5 s.header s.entries)) s.gen = _
+    split
+    · next hp => rw [Proofs.Lru.lookup_delete_ne _ _ _ hp.2]; exact Proofs.Lru.lookup_write_self _ _ _
+    · exact Proofs.Lru.lookup_write_self _ _ _
+  have hdec := (goodfile_decode md5 hmd5 s L hr h9).1
+  unfold fileView
+  have hg : (checkpoint md5 s).gen = s.gen := rfl
+  rw [hg, hl]
+  simp only [hdec]
+  exact congrArg some (viewOf_rep hr _ rfl rfl)
 
 end Cascette.Proofs.LruRefine
